@@ -182,7 +182,7 @@ pub fn dispatch(p: &[String]) -> String {
         }
         "parse_assemble_kind" => generated::parse_assemble_kind(&p[1], p[2].parse::<u64>().unwrap_or(0) as u32, if p.len() > 3 { p[3].parse::<u64>().unwrap_or(0) as u32 } else { 0 }),
         "id_ref_any" => generated::id_ref_any(&p[1], p[2].parse::<u64>().unwrap_or(0)),
-        "builder_type_twice" => generated::builder_type_twice(&p[1]),
+        "builder_type_twice" => generated::builder_type_twice_mode(&p[1], p.len() > 2 && p[2] == "explicit"),
         "storage_history" => {
             // n appends of distinct values from Storage::new(); then every token must have its index and yield its value
             use rspirv::sr::storage::Storage;
@@ -192,7 +192,7 @@ pub fn dispatch(p: &[String]) -> String {
             for k in 0..n { toks.push(s.append(1_000_000 + k)); }
             let mut bad: Option<String> = None;
             for (k, t) in toks.iter().enumerate() {
-                if t.index() != k as u32 { bad = Some(format!("token {} has index {}", k, t.index())); break; }
+                if (t.index() as u64) != k as u64 { bad = Some(format!("token {} has index {}", k, t.index())); break; }
                 if s[*t] != 1_000_000 + k as u32 { bad = Some(format!("token {} yields the value of token {}", k, s[*t] as i64 - 1_000_000)); break; }
             }
             match bad { None => "{\"ok\": true}".to_string(), Some(b) => format!("{{\"ok\": false, \"what\": {}}}", jstr(&b)) }
